@@ -74,6 +74,12 @@ type Case struct {
 	LateOn   bool `json:"late_on,omitempty"`
 	LateAt   int  `json:"late_at,omitempty"`
 	LateFrom int  `json:"late_from,omitempty"`
+	// CancelEdge > 0: the function of edge CancelEdge-1 cancels the replay's
+	// context the first time it is applied (a shutdown arriving in the middle
+	// of a chain).  The event in flight is still seen whole - composed or
+	// original, never half way - and the replay may then end with the
+	// context's error.
+	CancelEdge int `json:"cancel_edge,omitempty"`
 }
 
 // early: number of edges registered before the replay starts.
@@ -134,6 +140,18 @@ type ehCall struct {
 
 func Run(c *Case) *vkit.Outcome {
 	o := &vkit.Outcome{}
+	replayCtx, replayCancel := context.WithCancel(context.Background())
+	defer replayCancel()
+	rawUpcaster := func(i int, e Edge) eventbus.UpcastFunc {
+		f := rawUpcaster(i, e)
+		if c.CancelEdge != i+1 {
+			return f
+		}
+		return func(d json.RawMessage) (json.RawMessage, string, error) {
+			replayCancel()
+			return f(d)
+		}
+	}
 	store := eventbus.NewMemoryStore()
 	var ehCalls []ehCall
 	opts := []eventbus.Option{eventbus.WithStore(store)}
@@ -259,7 +277,7 @@ func Run(c *Case) *vkit.Outcome {
 	// ReplayWithUpcast
 	idx := 0
 	lateDone := false
-	err := bus.ReplayWithUpcast(ctx, eventbus.OffsetOldest, func(se *eventbus.StoredEvent) error {
+	err := bus.ReplayWithUpcast(replayCtx, eventbus.OffsetOldest, func(se *eventbus.StoredEvent) error {
 		if idx >= len(wants) {
 			return fmt.Errorf("extra event")
 		}
@@ -285,11 +303,22 @@ func Run(c *Case) *vkit.Outcome {
 		}
 		return nil
 	})
-	if err != nil {
-		o.Failf("", "ReplayWithUpcast returned %v", err)
-	}
-	if idx != len(wants) {
-		o.Failf("", "callback invoked %d times for %d stored events", idx, len(wants))
+	cancelled := c.CancelEdge > 0 && replayCtx.Err() != nil
+	if cancelled {
+		o.Class("replay_context_cancelled_from_inside_an_upcaster")
+		if err != nil && !errors.Is(err, context.Canceled) {
+			o.Failf("", "ReplayWithUpcast returned %v after its context was cancelled inside an upcaster", err)
+		}
+		if err == nil && idx != len(wants) {
+			o.Failf("", "ReplayWithUpcast returned nil after %d of %d events although its context was cancelled", idx, len(wants))
+		}
+	} else {
+		if err != nil {
+			o.Failf("", "ReplayWithUpcast returned %v", err)
+		}
+		if idx != len(wants) {
+			o.Failf("", "callback invoked %d times for %d stored events", idx, len(wants))
+		}
 	}
 	if lateDone && c.LateAt < len(c.Events)-1 {
 		o.Class("upcasters_registered_from_the_callback_with_events_still_to_come")
@@ -301,7 +330,7 @@ func Run(c *Case) *vkit.Outcome {
 	for _, w := range wants {
 		loops = loops || w.loop || w.ambiguous
 	}
-	if c.ErrHandler && !loops {
+	if c.ErrHandler && !loops && !cancelled {
 		var wantCalls []ehCall
 		for _, w := range wants {
 			if w.failAt != nil {
